@@ -168,7 +168,7 @@ class Inliner:
         for key in list(self.functions):
             f = self.functions[key]
             if f.get("body") is not None and str(f.get("file")).endswith(".cpp"):
-                for _round in range(4):
+                for _round in range(64):
                     before = self.count
                     self._predicates(f)
                     if self.count == before:
@@ -176,7 +176,7 @@ class Inliner:
         for key in list(self.functions):
             f = self.functions[key]
             if f.get("body") is not None and str(f.get("file")).endswith((".cpp", ".hpp")):
-                for _round in range(4):
+                for _round in range(64):
                     before = self.count
                     self._helpers(f, only_fp=not f.get("externC"))
                     if self.count == before:
@@ -272,7 +272,10 @@ class Inliner:
                 continue
             params, args = g["params"], list(call_args(n))
             trivial_fwd = not str(g.get("file")).endswith(".cpp") and n.get("k") == "CallExpr"
-            if only_fp and not trivial_fwd and not any("(*)" in str(p.get("t") or "") or "(lambda at" in str(p.get("t") or "") for p in params):
+            # a file-local helper that encapsulates a rejection (`warn or throw`): the throw and its guards belong to the caller
+            throws = n.get("k") == "CallExpr" and str(g.get("ret") or "").strip() == "void" and \
+                any(x.get("k") == "CXXThrowExpr" for x in walk(g["body"]))
+            if only_fp and not trivial_fwd and not throws and not any("(*)" in str(p.get("t") or "") or "(lambda at" in str(p.get("t") or "") for p in params):
                 continue
             if len(args) != len(params) or any(a.get("k") == "CXXDefaultArgExpr" for a in args):
                 continue
